@@ -75,7 +75,8 @@ def main():
     tier = args.tier
     plan = mod.plan(tier)
     nruns = args.runs or plan['runs']
-    log(f'[{pid}] tier={tier} seed={args.seed} runs={nruns} nproc={core.NPROC} PYTHONHASHSEED={os.environ.get("PYTHONHASHSEED")}')
+    import kawin
+    log(f'[{pid}] tier={tier} seed={args.seed} runs={nruns} nproc={core.NPROC} PYTHONHASHSEED={os.environ.get("PYTHONHASHSEED")} kawin={os.path.dirname(kawin.__file__)}')
 
     recs = []
     for i in range(nruns):
